@@ -83,6 +83,50 @@ def in_domain(events):
     return True
 
 
+_NAME = None
+
+
+def _xml_chars(s):
+    return all(c in '\t\n\r' or 0x20 <= ord(c) <= 0xd7ff or 0xe000 <= ord(c) <= 0xfffd or 0x10000 <= ord(c) for c in s)
+
+
+def tree_in_domain(tree):
+    """builder trees the property speaks about: XML names without colon, namespace URIs XML can declare,
+    distinct attribute names, XML characters (keeps the shrinker from leaving the domain)"""
+    import re
+    global _NAME
+    if _NAME is None:
+        _NAME = re.compile('^[A-Za-z_\u00c0-\u02ff\u0370-\u1fff\u3000-\ud7ff][A-Za-z0-9_.\\-\u00b7\u00c0-\u02ff\u0300-\u1fff\u3000-\ud7ff]*$')
+    def name_ok(n, attr=False):
+        if not (isinstance(n, list) and len(n) == 2 and all(isinstance(x, str) for x in n)):
+            return False
+        ns, loc = n
+        if not _NAME.match(loc) or not _xml_chars(ns):
+            return False
+        if ns in ('http://www.w3.org/2000/xmlns/',) or (ns == gen_xml.XML_NS and not attr):
+            return False
+        if attr and not ns and loc == 'xmlns':
+            return False
+        return True
+    def ok(n):
+        if n.get('t') == 't':
+            return isinstance(n.get('s'), str) and _xml_chars(n['s'])
+        if n.get('t') != 'e' or not name_ok(n.get('name')):
+            return False
+        seen = set()
+        for a in n.get('attrs', []):
+            if not (isinstance(a, list) and len(a) == 2 and name_ok(a[0], True) and isinstance(a[1], str) and _xml_chars(a[1])):
+                return False
+            if tuple(a[0]) in seen:
+                return False
+            seen.add(tuple(a[0]))
+        return all(ok(k) for k in n.get('kids', []))
+    try:
+        return ok(tree)
+    except Exception:  # noqa
+        return False
+
+
 def check_stream(case, stream, first, fails, res=None):
     """the property on one genshi stream whose canonical events are `first`"""
     def bad(what, expected, observed):
@@ -157,6 +201,10 @@ def oracle_case(case, res=None):
             return None
         check_stream(case, stream, first, fails, res)
     elif case['kind'] == 'tree':
+        if not tree_in_domain(case['tree']):
+            if res is not None:
+                res.count('outside-domain')
+            return None
         el = gen_xml.build(case['tree'])
         first = gen_xml.tree_events(case['tree'])
         if not in_domain(first):
@@ -166,6 +214,23 @@ def oracle_case(case, res=None):
             fails.append({'case': case, 'what': 'builder stream denotes the tree', 'expected': first, 'observed': got})
         else:
             check_stream(case, Stream(list(el.generate())), first, fails, res)
+    elif case['kind'] == 'bytes-doc':
+        # the encoded output read by a parser that is NOT told the encoding (known finding C02-decl-encoding-echo)
+        try:
+            stream = XML(case['text'])
+        except Exception:  # noqa
+            return None
+        first = gen_xml.canon_events(stream)
+        data = _render(stream, case['encoding'])
+        try:
+            got = gen_xml.expat_events(data)
+        except gen_xml.NotWellFormed as ex:
+            fails.append({'case': case, 'what': 'encoded output is well-formed for a parser that reads the bytes',
+                          'expected': 'expat accepts', 'observed': 'NotWellFormed: %s in %r' % (ex, data[:200])})
+        else:
+            if got != first:
+                fails.append({'case': case, 'what': 're-parse of the bytes equals the first parse', 'expected': first,
+                              'observed': got})
     elif case['kind'] == 'events':
         stream = Stream(evwire.unstream(case['events']))
         first = gen_xml.canon_events(stream)
@@ -624,7 +689,7 @@ def search(ctx, res, broken):
 
 def replay(ctx, case):
     kind = case.get('kind')
-    if kind in ('doc', 'tree', 'events'):
+    if kind in ('doc', 'tree', 'events', 'bytes-doc'):
         return oracle_case(case)
     if kind == 'wild':
         # correspondence-only input: judge it by the property if it happens to be in its domain
